@@ -18,8 +18,21 @@ class SeqPolicy(terms.Policy):
             return False
         imp = body.get("impl") or {}
         if imp.get("trait") or imp.get("trait_default"):
-            return False
+            # methods of a crate-private trait that the pinned tree does not have (an extension trait introduced to share a loop)
+            # are helpers like any other; every trait of the pinned tree keeps its rows
+            return not body["vis"].startswith("Public") and _fresh_trait(imp.get("trait") or imp.get("trait_default"))
         return not body["vis"].startswith("Public")
+
+
+def _fresh_trait(path):
+    import canon
+    fz = canon.frozen()
+    known = set()
+    for crate, per in fz.items():
+        if isinstance(per, dict):
+            for key, tab in per.items():
+                known.update(k for k, v in (tab.get("defs") or {}).items() if v == "Trait")
+    return bool(known) and path not in known and not path.startswith("std::") and not path.startswith("core::")
 
 
 class ForkPolicy(SeqPolicy):
